@@ -1,4 +1,4 @@
-CONSTANTS RectCoords <- RT  PolyCoords <- PT  QuadCoords <- QT  Fixed = 1
+CONSTANTS RectCoords <- RT  PolyCoords <- PT  QuadCoords <- QT  Fixed = 2
 INIT Init
 NEXT Next
 INVARIANTS BoundsSane Emit
